@@ -179,11 +179,13 @@ def run(tier):
             nn = len(a.get("out", []))
             bb = dict(b, out=b["out"][:nn], words=b.get("words", [])[:nn])
             if not all(s.get("ok") for s in a.get("swaps", [])):
-                chk.violation(f"{be}: hot swap of the unchanged source {name} refused: {json.dumps(a.get('swaps'))[:300]}", case, key=key)
+                chk.violation(f"{be}: hot swap of the unchanged source {name} refused: {json.dumps(a.get('swaps'))[:300]}", dict(case, backend=be),
+                              key=vlib.canon_key(req["src"] + "|" + be))
                 continue
             rrid = f"{rid}|{be}"
             records.append({"id": rrid, "a": langpipe.side(a), "b": langpipe.side(bb), "cmpwords": False})
-            meta[rrid] = (name, case, key)
+            # a finding is a (source, runtime) pair: the same file failing on the other runtime is another violation
+            meta[rrid] = (name, dict(case, backend=be), vlib.canon_key(req["src"] + "|" + be))
             nhist += 1
     fails = langpipe.validate_lockstep(chk, records, "c06")
     for rrid, f in fails.items():
